@@ -23,7 +23,7 @@ RULE = (
     "against the library called in-process with the same arguments - stdout (colour codes stripped) == library lines, --out binary "
     "hex == bytes of all decoded fields in order, exit 0; refused names => non-zero exit, a suggestion / error on stderr and no "
     "decode rows; `type` == the types (and response command codes) under which the file decodes strictly; `example X` blocks are of "
-    "X's type / command code and re-decode strictly to exactly the rows shown. Non-trivial = the run uses a non-default option or a "
+    "X's type / command code and re-decode (leniently: the captures hold a few out-of-range values) to exactly the rows shown. Non-trivial = the run uses a non-default option or a "
     "malformed file; distinct = (arguments, file bytes)."
 )
 ASSUMPTIONS = ["runs in which the library itself raises (unknown command code in warn mode, invalid hex text) are skipped and counted", "--type with --in auto is refused by the tool (RuntimeError) and not exercised"]
@@ -273,14 +273,23 @@ def example_case(ctx, L, cli, name):
         ok = False
         why = None
         for t, cc, enc in cands:
-            obs = O.run_decode(t, data, command_code=cc, enc=enc, strict=True)
+            # the repository's captures hold a few messages with out-of-range values; the tool shows them (decoded in warn
+            # mode, warnings are not part of an example), so the re-decode is lenient and its warnings are left out as well
+            obs = O.run_decode(t, data, command_code=cc, enc=enc, strict=False)
             if obs.outcome["kind"] != "ok":
-                why = f"does not decode strictly as {t}: {obs.outcome['kind']}"
+                why = f"does not decode as {t}: {obs.outcome['kind']}"
                 continue
+            if obs.warnings:
+                ctx.count("example-blocks-with-warnings")
+                if any(w["kind"] != "value" for _, w in obs.warnings):
+                    why = f"re-decodes with structural problems: {[w['kind'] for _, w in obs.warnings]}"
+                    continue
             if is_cc and t == "Command" and not any(e[0] == ".commandCode" and e[2] == L.commands[name]["code"] for e in obs.events):
                 why = "command code in the block is not the one asked for"
                 continue
-            want = [strip_ansi(r).rstrip() for r in Pretty.unmarshal(list(obs.raw))]
+            from tpmstream.common.event import MarshalEvent
+
+            want = [strip_ansi(r).rstrip() for r in Pretty.unmarshal([e for e in obs.raw if isinstance(e, MarshalEvent)])]
             if want == [r.rstrip() for r in rows]:
                 ok = True
                 break
